@@ -51,3 +51,64 @@ package reactive
 //@   call dynamic ghost spawned = spawned + 1
 //@   ensures inv ==> spawned == 1
 //@   ensures !inv ==> spawned == 0
+
+// ---- C08: release and the cache
+//@ func node.invalidate
+//@   locks n.mu
+
+// release implies invalidate; the cleanup callback runs only on the released false -> true transition (at most once).
+//@ func node.release
+//@   requires n != nil
+//@   ghost ninvalidate int
+//@   ghost wasReleased bool
+//@   ghost ncleanup int
+//@   entry ghost ninvalidate = 0
+//@   entry ghost ncleanup = 0
+//@   call node.invalidate assert arg0 == n
+//@   call node.invalidate ghost ninvalidate = ninvalidate + 1
+//@   call Mutex.Lock#1 ghost wasReleased = n.released
+//@   call dynamic ghost ncleanup = ncleanup + 1
+//@   ensures ninvalidate == 1
+//@   ensures wasReleased ==> ncleanup == 0
+//@   ensures ncleanup <= 1
+
+//@ func node.handleRelease
+//@   requires n != nil
+//@   maypanic
+//@   ghost rel bool
+//@   ghost spawned int
+//@   entry ghost spawned = 0
+//@   call Mutex.Lock#1 ghost rel = n.released
+//@   call dynamic ghost spawned = spawned + 1
+//@   ensures rel ==> spawned == 1
+//@   ensures !rel ==> spawned == 0
+
+// the per-rerunner cache: get returns the stored computation; set never replaces an entry; cleanInvalidated removes an
+// entry only after its node reported invalid, and looks at every entry.
+//@ func cache.get
+//@   requires c != nil
+//@   ensures result == old(c.computations[key])
+//@ func cache.set
+//@   requires c != nil
+//@   ensures old(c.computations[key]) != nil ==> c.computations[key] == old(c.computations[key])
+//@   ensures old(c.computations[key]) == nil ==> c.computations[key] == computation
+//@   ensures forall k interface{} :: k != key ==> c.computations[k] == old(c.computations[k])
+//@ func cache.cleanInvalidated
+//@   requires c != nil
+//@   keeps cache, map[interface{}]*computation
+//@   ghost lastInv bool
+//@   ghost lastKey interface{}
+//@   call node.Invalidated ghost lastInv = ret0
+//@   call node.Invalidated ghost lastKey = key
+//@   call delete:computations assert lastInv && arg1 == lastKey
+//@   loop 1 invariant forall k interface{} :: (k in c.computations) ==> old(k in c.computations)
+
+// Cache: on the hit path and on the miss path the child computation is linked to the parent before its value is
+// returned, so that an invalidation of anything the child read reaches the parent (C04's addOut contract).
+//@ func Cache
+//@   ghost nlink int
+//@   entry ghost nlink = 0
+//@   call node.addOut ghost nlink = nlink + 1
+//@   ensures err == nil && hasRerunner ==> nlink == 1
+//@   ghost hasRerunner bool
+//@   call HasRerunner ghost hasRerunner = ret0
